@@ -195,6 +195,9 @@ def run(ctx, report):
     from common import Only
     from rules import c01, c02, c05, c09, c10
     c02._own_run(ctx, Only(report, {"KEYS": "KEYS"}))
+    # the pairs are observed through iter(): it walks the map itself
+    from rules import api
+    api.readers_rule(ctx, Only(report, {"READ": "READ"}, keys=lambda r, k: k == "iter"))
     # every record returned by an update verifies (else its encoding cannot be decoded again), under every key type's public-key reader
     c05._own_run(ctx, Only(report, {"TS": "TS", "WRAP": "WRAP", "SIGN": "SIGN", "BUILD": "KEYED-BUILD"}))
     c01.pubkey_rule(ctx, Only(report, {"PUBKEY": "PUBKEY"}))
